@@ -129,7 +129,7 @@ func eq(a, b string) string {
 	return "(= " + a + " " + b + ")"
 }
 
-func sel(a, i string) string   { return "(select " + a + " " + i + ")" }
+func sel(a, i string) string    { return "(select " + a + " " + i + ")" }
 func sto(a, i, v string) string { return "(store " + a + " " + i + " " + v + ")" }
 
 func intLit(v *big.Int) string {
@@ -155,9 +155,9 @@ var solverCmds = map[string][]string{
 	// E-matching without the array extensionality axioms: a weaker theory (unsat answers stay valid) that
 	// avoids the case splits on nested heap arrays; much faster on large functions
 	"z3-new-noext": {"z3-new", "-smt2", "smt.mbqi=false", "auto_config=false", "smt.array.extensional=false"},
-	"z3":          {"z3", "-smt2"},
-	"z3-ematch":   {"z3", "-smt2", "smt.mbqi=false", "auto_config=false"},
-	"cvc5":        {"cvc5", "--lang=smt2"},
+	"z3":           {"z3", "-smt2"},
+	"z3-ematch":    {"z3", "-smt2", "smt.mbqi=false", "auto_config=false"},
+	"cvc5":         {"cvc5", "--lang=smt2"},
 }
 
 func runSolver(name string, file string, timeout time.Duration, extra ...string) SolverRes {
